@@ -39,10 +39,16 @@ func fatal(err error) {
 
 // realOutcome runs src through the public API and renders the outcome in the
 // driver's answer format.
-func realOutcome(src string) (string, bool) {
+func realOutcome(src string, inputs []inputVar) (string, bool) {
 	var out string
 	g := lib.Guard(10*time.Second, func() {
 		s := tengo.NewScript([]byte(src))
+		for _, in := range inputs {
+			if err := s.Add(in.Name, in.mk()); err != nil {
+				out = "add-error " + err.Error()
+				return
+			}
+		}
 		c, err := s.Compile()
 		if err != nil {
 			msg := err.Error()
@@ -96,20 +102,73 @@ func realOutcome(src string) (string, bool) {
 	return out, true
 }
 
-func checkProgram(src string, feats map[string]int) {
+// inputVar is a host-provided variable: mk builds a FRESH tengo object each time (runs mutate them).
+type inputVar struct {
+	Name string
+	Ty   lib.Ty
+	mk   func() tengo.Object
+}
+
+func ints(vs ...int64) []tengo.Object {
+	out := make([]tengo.Object, len(vs))
+	for i, v := range vs {
+		out[i] = &tengo.Int{Value: v}
+	}
+	return out
+}
+
+// inputPool: host values of every runtime type the reference interpreter models.
+var inputPool = []struct {
+	ty lib.Ty
+	mk func() tengo.Object
+}{
+	{lib.TInt, func() tengo.Object { return &tengo.Int{Value: 42} }},
+	{lib.TInt, func() tengo.Object { return &tengo.Int{Value: -9223372036854775808} }},
+	{lib.TFloat, func() tengo.Object { return &tengo.Float{Value: 2.5} }},
+	{lib.TFloat, func() tengo.Object { return &tengo.Float{Value: -0.0} }},
+	{lib.TBool, func() tengo.Object { return tengo.TrueValue }},
+	{lib.TString, func() tengo.Object { return &tengo.String{Value: "host héllo"} }},
+	{lib.TString, func() tengo.Object { return &tengo.String{Value: ""} }},
+	{lib.TChar, func() tengo.Object { return &tengo.Char{Value: 'ß'} }},
+	{lib.TBytes, func() tengo.Object { return &tengo.Bytes{Value: []byte{0, 1, 254, 255}} }},
+	{lib.TArr, func() tengo.Object { return &tengo.Array{Value: ints(1, 2, 3)} }},
+	{lib.TArr, func() tengo.Object { return &tengo.ImmutableArray{Value: ints(7, 8)} }},
+	{lib.TArr, func() tengo.Object { return &tengo.Array{} }},
+	{lib.TMap, func() tengo.Object {
+		return &tengo.Map{Value: map[string]tengo.Object{"a": &tengo.Int{Value: 1}, "k": &tengo.Int{Value: 5}}}
+	}},
+	{lib.TMap, func() tengo.Object {
+		return &tengo.ImmutableMap{Value: map[string]tengo.Object{"n": &tengo.Int{Value: 9}}}
+	}},
+	{lib.TAny, func() tengo.Object { return tengo.UndefinedValue }},
+	{lib.TAny, func() tengo.Object { return &tengo.Error{Value: &tengo.String{Value: "boom"}} }},
+	{lib.TAny, func() tengo.Object {
+		return &tengo.Array{Value: []tengo.Object{&tengo.Array{Value: ints(1, 2)}, &tengo.Map{Value: map[string]tengo.Object{"x": &tengo.Float{Value: 1.5}}}, &tengo.String{Value: "s"}}}
+	}},
+}
+
+func checkProgram(src string, feats map[string]int, inputs ...inputVar) {
 	f, _, err := lib.ParseSource("(main)", []byte(src))
 	if err != nil {
 		res.Count("spec", src, false)
 		res.Dist("parse-error")
 		return
 	}
-	real, _ := realOutcome(src)
+	real, _ := realOutcome(src, inputs)
 	if drv == nil {
 		res.Count("spec", src, false)
 		return
 	}
 	ast := lib.ASTDumper{}.File(f)
-	ans, err := drv.Ask(lib.L("spec", "200000", "()", ast))
+	ins := make([]string, len(inputs))
+	for i, in := range inputs {
+		ins[i] = "(" + lib.HexS(in.Name) + " " + lib.Canon(in.mk()) + ")"
+	}
+	if len(inputs) > 0 {
+		res.Dist("programs-with-host-inputs")
+		src = "// inputs: " + strings.Join(ins, " ") + "\n" + src
+	}
+	ans, err := drv.Ask(lib.L("spec", "200000", "("+strings.Join(ins, " ")+")", ast))
 	if err != nil {
 		fatal(err)
 	}
@@ -326,8 +385,17 @@ func main() {
 	for i := 0; i < n; i++ {
 		r := rng.Fork()
 		g := lib.NewGen(r, profile(r))
+		var inputs []inputVar
+		if r.Chance(1, 3) {
+			for k := 1 + r.Intn(3); k > 0; k-- {
+				c := lib.Pick(r, inputPool)
+				in := inputVar{Name: fmt.Sprintf("in%d", k), Ty: c.ty, mk: c.mk}
+				inputs = append(inputs, in)
+				g.DeclareInput(in.Name, in.Ty)
+			}
+		}
 		src := g.Program()
-		checkProgram(src, g.Feat)
+		checkProgram(src, g.Feat, inputs...)
 		if i%40 == 0 {
 			for k, v := range g.Feat {
 				res.Distribution["feat:"+k] += v
